@@ -309,6 +309,11 @@ func Run(o Options) int {
 	if obligations == 0 && len(problems) == 0 {
 		problems = append(problems, "no obligations were generated for this property")
 	}
+	if o.Verbose {
+		for _, n := range dedup(notes) {
+			fmt.Println("  note:", n)
+		}
+	}
 	for _, l := range knownLines {
 		fmt.Println(l)
 	}
